@@ -24,7 +24,7 @@ import (
 // value or an interface other than filesys.FileSystem that ends in one of the callees above is found at
 // the callee's own call site, which is inside the scanned packages or the standard library.
 
-const kustomizePrefix = "sigs.k8s.io/kustomize/"
+const c05KustomizePrefix = "sigs.k8s.io/kustomize/"
 
 var rawPkgFuncs = map[string]map[string]bool{
 	"os":            {"ReadFile": true, "Open": true, "OpenFile": true, "ReadDir": true},
@@ -47,7 +47,7 @@ type rawSite struct {
 	n               int
 }
 
-func funcName(d *ast.FuncDecl) string {
+func c05FuncName(d *ast.FuncDecl) string {
 	if d.Recv != nil && len(d.Recv.List) > 0 {
 		t := d.Recv.List[0].Type
 		for {
@@ -102,7 +102,7 @@ func init() {
 		visit(pkgs[0])
 		var paths []string
 		for path, p := range seen {
-			if strings.HasPrefix(path, kustomizePrefix) {
+			if strings.HasPrefix(path, c05KustomizePrefix) {
 				if len(p.Errors) > 0 {
 					return "", fmt.Errorf("package %s: %v", path, p.Errors[0])
 				}
@@ -134,7 +134,7 @@ func init() {
 			ifaceMethods[n] = true
 		}
 		sanctioned := func(pkgPath, fn string) bool {
-			return pkgPath == filesysPkg || (pkgPath == kustomizePrefix+"api/internal/loader" && fn == "FileLoader.Load")
+			return pkgPath == filesysPkg || (pkgPath == c05KustomizePrefix+"api/internal/loader" && fn == "FileLoader.Load")
 		}
 		taintedTypes := map[*types.TypeName]bool{}
 		var derived map[[3]string]int
@@ -152,7 +152,7 @@ func init() {
 							if d.Body == nil {
 								continue
 							}
-							where = funcName(d)
+							where = c05FuncName(d)
 							body = d.Body
 							declObj, _ = p.TypesInfo.Defs[d.Name].(*types.Func)
 						}
@@ -198,7 +198,7 @@ func init() {
 											hit("via " + objName(f))
 										}
 										if tn, ok := p.TypesInfo.Uses[x.Sel].(*types.TypeName); ok && taintedTypes[tn] {
-											hit("type " + strings.TrimPrefix(tn.Pkg().Path(), kustomizePrefix) + "." + tn.Name())
+											hit("type " + strings.TrimPrefix(tn.Pkg().Path(), c05KustomizePrefix) + "." + tn.Name())
 										}
 									}
 									scan(x.X)
@@ -213,7 +213,7 @@ func init() {
 											hit("via " + objName(f))
 										}
 										if tn, ok := p.TypesInfo.Uses[x].(*types.TypeName); ok && taintedTypes[tn] {
-											hit("type " + strings.TrimPrefix(tn.Pkg().Path(), kustomizePrefix) + "." + tn.Name())
+											hit("type " + strings.TrimPrefix(tn.Pkg().Path(), c05KustomizePrefix) + "." + tn.Name())
 										}
 									}
 								}
@@ -261,7 +261,7 @@ func init() {
 			if i == len(paths)-1 {
 				sepa = ""
 			}
-			fmt.Fprintf(&b, "  %s%s\n", coqStr(strings.TrimPrefix(p, kustomizePrefix)), sepa)
+			fmt.Fprintf(&b, "  %s%s\n", coqStr(strings.TrimPrefix(p, c05KustomizePrefix)), sepa)
 		}
 		b.WriteString("].\n\n")
 		b.WriteString("(* (package, enclosing function, callee, number of calls) *)\n")
@@ -271,7 +271,7 @@ func init() {
 			if i == len(sites)-1 {
 				sepa = ""
 			}
-			fmt.Fprintf(&b, "  (%s, %s, %s, %d%%N)%s\n", coqStr(strings.TrimPrefix(s.pkg, kustomizePrefix)), coqStr(s.fn), coqStr(s.callee), s.n, sepa)
+			fmt.Fprintf(&b, "  (%s, %s, %s, %d%%N)%s\n", coqStr(strings.TrimPrefix(s.pkg, c05KustomizePrefix)), coqStr(s.fn), coqStr(s.callee), s.n, sepa)
 		}
 		b.WriteString("].\n")
 		return b.String(), nil
@@ -299,7 +299,7 @@ func objName(f *types.Func) string {
 	}
 	pkg := ""
 	if f.Pkg() != nil {
-		pkg = strings.TrimPrefix(f.Pkg().Path(), kustomizePrefix)
+		pkg = strings.TrimPrefix(f.Pkg().Path(), c05KustomizePrefix)
 	}
 	return pkg + "." + name
 }
